@@ -26,6 +26,15 @@ func (eng *Engine) checkLockset(fc *FnCtx, fr *Frame, fn *ssa.Function, spec *Fu
 	if field == "" || len(fn.Params) == 0 || len(fn.Blocks) == 0 {
 		return
 	}
+	if locksetIsCounter(fn, field) {
+		eng.checkLocksetCounter(fc, fr, fn, spec) // ext_lockset_counter.go: the field is a counter object with an embedded mutex
+		return
+	}
+	if strings.Contains(field, " guards ") {
+		// `lockset r.<mutex> guards f1, f2, ...`: mutex-guarded fields of the receiver, no badger involved (ext_crypto.go)
+		eng.checkLocksetGuards(fc, fr, fn, spec)
+		return
+	}
 	recv := fn.Params[0]
 	isField := func(v ssa.Value) bool {
 		// *(&recv.field)
@@ -34,7 +43,7 @@ func (eng *Engine) checkLockset(fc *FnCtx, fr *Frame, fn *ssa.Function, spec *Fu
 			return false
 		}
 		fa, ok := u.X.(*ssa.FieldAddr)
-		if !ok || fa.X != recv {
+		if !ok || !isRecvValue(fa.X, recv) {
 			return false
 		}
 		st, ok := derefStructType(recv.Type())
